@@ -202,6 +202,15 @@ type encap struct {
 	IHL   int    `json:"ihl"`
 	// OptZero: the IP options (IHL > 5) are End-of-Option-List bytes (zeros) instead of Router Alert + NOPs
 	OptZero bool `json:"opt_zero,omitempty"`
+	// Hdr: the request's IPv4 Identification, TOS, flags (DF only: a DHCP request is not a fragment) and TTL are
+	// the generated values below (the program rewrites the request in place, so Identification, TOS and the
+	// fragment word end up in the reply header and decide its checksum).  Without Hdr (committed cases that
+	// predate it): id 0x1234, TOS 0x10, no flags, TTL 128 (63 from a relay).
+	Hdr  bool   `json:"hdr,omitempty"`
+	ID   uint16 `json:"id,omitempty"`
+	TOS  byte   `json:"tos,omitempty"`
+	Frag uint16 `json:"frag,omitempty"`
+	TTL  byte   `json:"ttl,omitempty"`
 }
 
 func (e encap) name() string {
@@ -257,6 +266,12 @@ func buildFrame(e encap, dstMAC, srcMAC [6]byte, src, dst [4]byte, relay bool, p
 		h[8] = 63
 	}
 	h[9] = 17
+	if e.Hdr {
+		h[1] = e.TOS
+		binary.BigEndian.PutUint16(h[4:], e.ID)
+		binary.BigEndian.PutUint16(h[6:], e.Frag&0x4000)
+		h[8] = e.TTL
+	}
 	copy(h[12:16], src[:])
 	copy(h[16:20], dst[:])
 	// IP options: Router Alert then NOP padding (non-zero bytes, so that a checksum that ignores them is wrong)
@@ -385,6 +400,66 @@ func parseReply(fr []byte) (p parsed, what, detail string) {
 		p.msgType = v[0]
 	}
 	return p, "", ""
+}
+
+// l3Offset: where the IPv4 header starts in a frame with up to two VLAN tags (0 = not IPv4).
+func l3Offset(fr []byte) int {
+	off := 12
+	for i := 0; i < 2; i++ {
+		if off+2 > len(fr) {
+			return 0
+		}
+		et := binary.BigEndian.Uint16(fr[off:])
+		if et != etQ && et != etAD {
+			break
+		}
+		off += 4
+	}
+	if off+2 > len(fr) || binary.BigEndian.Uint16(fr[off:]) != etIPv4 {
+		return 0
+	}
+	return off + 2
+}
+
+// leWords: the 16-bit words of a 20-byte IPv4 header as a little-endian machine loads them (the order in
+// which the program adds them up).
+func leWords(h []byte) (w [10]uint32) {
+	for i := range w {
+		w[i] = uint32(h[2*i]) | uint32(h[2*i+1])<<8
+	}
+	return
+}
+
+// needsTwoFolds: does the one's-complement sum of this header (checksum word taken as zero), added up as the
+// program does it, still exceed 16 bits after ONE end-around carry?  (About 3 in 65536 headers do.)
+func needsTwoFolds(h []byte) bool {
+	w := leWords(h)
+	var s uint32
+	for i, v := range w {
+		if i != 5 {
+			s += v
+		}
+	}
+	return s&0xffff+s>>16 >= 0x10000
+}
+
+// steerID: the Identification (network order) that makes the header need two folds, given every other word of
+// it; ok = false if no Identification can (the other words sum to less than 0x10000).
+func steerID(h []byte) (id uint16, ok bool) {
+	w := leWords(h)
+	var r uint32
+	for i, v := range w {
+		if i != 5 && i != 2 {
+			r += v
+		}
+	}
+	for k := uint32(0); k < 10; k++ {
+		x := (0xffff - k - r&0xffff) & 0xffff
+		if t := r + x; t&0xffff+t>>16 >= 0x10000 {
+			return uint16(x&0xff)<<8 | uint16(x>>8), true
+		}
+	}
+	return 0, false
 }
 
 func rev4(b []byte) []byte {
